@@ -331,12 +331,12 @@ func c13Rects(r *engine.Run, g geom.Geometry, hull []ipt, c hullCase) {
 		s1 := math.Hypot(q[1].X-q[0].X, q[1].Y-q[0].Y)
 		s2 := math.Hypot(q[2].X-q[1].X, q[2].Y-q[1].Y)
 		if variant == "area" {
-			if got, want := s1*s2, bestArea.Float(); math.Abs(got-want) > 1e-9*math.Max(1, want) {
+			if got, want := s1*s2, bestArea.Float(); math.Abs(got-want) > 1e-9*want {
 				bad("rect.area.notMinimal", fmt.Sprintf("area %v, minimum over edge-aligned rectangles %v: %s", got, want, rect.AsText()))
 			}
 		} else {
 			w := math.Min(s1, s2)
-			if got, want := w*w, bestW2.Float(); math.Abs(got-want) > 1e-9*math.Max(1, want) {
+			if got, want := w*w, bestW2.Float(); math.Abs(got-want) > 1e-9*want {
 				bad("rect.width.notMinimal", fmt.Sprintf("width² %v, minimum %v: %s", got, want, rect.AsText()))
 			}
 		}
